@@ -136,7 +136,10 @@ Section LetSim.
   Hypothesis Hstop : stops 0 rest = true.
   Hypothesis Htr : tr e = Some e'.
   Hypothesis Hren : Renders 0 e' ts.
-  Hypothesis Hdepth : 1 + pdepth e' < max_nesting.
+  (* the statement may sit inside IF..THEN clauses: [d] is its nesting depth *)
+  Variable d : nat.
+  Hypothesis Hd : Nat.eqb d max_nesting = false.
+  Hypothesis Hdepth : S d + pdepth e' < max_nesting.
 
   (* reference side *)
   Variables (p : rprogram) (after : rpc) (li : nat) (st : rstate).
@@ -163,7 +166,7 @@ Section LetSim.
   (* model side: the statement evaluator on the token stream *)
   Lemma model_let : exists fuel0, forall fuel, fuel0 <= fuel -> forall r o,
     exists i' r' o', W s o o' /\
-      evaluate_statement fuel 0 (at_idx s i r o) =
+      evaluate_statement fuel d (at_idx s i r o) =
       match den s e' with
       | Ok x => if type_matches v x
                 then (Ok tt, set_variables (alist_set v x (variables s))
@@ -177,13 +180,13 @@ Section LetSim.
   Proof.
     destruct (skipn_cons_nth _ _ _ _ Hskip) as [H0 Hs1].
     destruct (skipn_cons_nth _ _ _ _ Hs1) as [H1 Hs2].
-    destruct (expr_sem_at s toks Htoks e' ts Hren 1 (S (S i)) rest Hs2 Hstop Hdepth) as (f0 & Hex).
+    destruct (expr_sem_at s toks Htoks e' ts Hren (S d) (S (S i)) rest Hs2 Hstop Hdepth) as (f0 & Hex).
     exists (S (S f0)). intros fuel Hf r o.
     destruct fuel as [|f]; [lia|].
     assert (Hf' : f0 <= f) by lia.
     destruct (Hex f Hf' (S (S (S r))) o) as (i' & r' & o' & Heq & Hidx & HW).
     exists i', r', o'. split; [exact HW|].
-    cbn [evaluate_statement]. change (Nat.eqb 0 max_nesting) with false. cbv iota.
+    cbn [evaluate_statement]. rewrite Hd.
     unfold evaluate_statement_body.
     rewrite bind_get_run. change (enable_tracing (at_idx s i r o)) with (enable_tracing s).
     rewrite Htrace. cbv iota.
@@ -209,7 +212,7 @@ Section LetSim.
     match exec (xsize e) p (SLet v [] e) after li st with
     | Next pc st' =>
         pc = after /\
-        exists s', evaluate_statement fuel 0 (at_idx s i r o) = (Ok tt, s')
+        exists s', evaluate_statement fuel d (at_idx s i r o) = (Ok tt, s')
           /\ same_store st' s'
           /\ loc s' = mkloc (loc_line (loc s)) (i + 2 + length ts)
           /\ W s o (outputs s')
@@ -217,7 +220,7 @@ Section LetSim.
                                 (at_idx s (i + 2 + length ts) r' (outputs s')))
     | Fail er line st' =>
         line = line_no p li /\ st' = st /\
-        exists ie l s', evaluate_statement fuel 0 (at_idx s i r o) = (Err ie l, s')
+        exists ie l s', evaluate_statement fuel d (at_idx s i r o) = (Err ie l, s')
           /\ rerr_of ie = er /\ same_store st s'
     | Done _ | NoFuel => False
     end.
@@ -423,11 +426,13 @@ Section PrintSim.
   Hypothesis Htrace : enable_tracing s = false.
   Hypothesis Hskip : skipn i toks = TPrint :: ts ++ rest.
   Hypothesis Hren : IRenders rest items ts.
-  Hypothesis Hdepth : 1 + idepth items < max_nesting.
+  Variable d : nat.
+  Hypothesis Hd : Nat.eqb d max_nesting = false.
+  Hypothesis Hdepth : S d + idepth items < max_nesting.
 
   Lemma model_print : exists fuel0, forall fuel, fuel0 <= fuel -> forall r o,
     exists i' r' o', W s o o' /\
-      evaluate_statement fuel 0 (at_idx s i r o) =
+      evaluate_statement fuel d (at_idx s i r o) =
       match pden s items false [] with
       | Ok (semi, text) =>
           (Ok tt, at_idx s (i + 1 + length ts) r' (o' ++ [OPrint (if semi then text else text ++ [10%N])]))
@@ -438,12 +443,12 @@ Section PrintSim.
       end.
   Proof.
     destruct (skipn_cons_nth _ _ _ _ Hskip) as [H0 Hs1].
-    destruct (print_loop rest items ts Hren 1 (S i) Hdepth Hs1) as (K0 & F0 & HL).
+    destruct (print_loop rest items ts Hren (S d) (S i) Hdepth Hs1) as (K0 & F0 & HL).
     exists (S (Nat.max K0 F0)). intros fuel Hf r o.
     destruct fuel as [|f]; [lia|].
     destruct (HL f ltac:(lia) f ltac:(lia) false [] (S r) o) as (i' & r' & o' & HW & Hrun).
     exists i', r', o'. split; [exact HW|].
-    cbn [evaluate_statement]. change (Nat.eqb 0 max_nesting) with false. cbv iota.
+    cbn [evaluate_statement]. rewrite Hd.
     unfold evaluate_statement_body.
     rewrite bind_get_run. change (enable_tracing (at_idx s i r o)) with (enable_tracing s).
     rewrite Htrace. cbv iota.
@@ -516,29 +521,30 @@ Qed.
    record; the model pushes one Print record with the same text (behind any
    warnings); stores and the relation are untouched; the cursor is just past
    the statement.  Or both fail with the same error kind. *)
-Theorem print_statement_simulates s toks items mitems ts rest i p after li st :
+Theorem print_statement_simulates s toks items mitems ts rest i p after li st d :
   fst (cur_tokens s) = Ok toks -> enable_tracing s = false ->
   skipn i toks = TPrint :: ts ++ rest ->
-  tr_items items = Some mitems -> IRenders rest mitems ts -> 1 + idepth mitems < max_nesting ->
+  tr_items items = Some mitems -> IRenders rest mitems ts ->
+  Nat.eqb d max_nesting = false -> S d + idepth mitems < max_nesting ->
   same_store st s ->
   exists fuel0, forall fuel, fuel0 <= fuel -> forall r o,
     match exec (isize items) p (SPrint items) after li st with
     | Next pc st' =>
         pc = after /\
         exists text, st' = add_out text st /\
-        exists s' ow r', evaluate_statement fuel 0 (at_idx s i r o) = (Ok tt, s')
+        exists s' ow r', evaluate_statement fuel d (at_idx s i r o) = (Ok tt, s')
           /\ W s o ow
           /\ s' = at_idx s (i + 1 + length ts) r' (ow ++ [OPrint text])
           /\ same_store st' s'
     | Fail er line st' =>
         line = line_no p li /\ st' = st /\
-        exists ie l s', evaluate_statement fuel 0 (at_idx s i r o) = (Err ie l, s')
+        exists ie l s', evaluate_statement fuel d (at_idx s i r o) = (Err ie l, s')
           /\ rerr_of ie = er /\ same_store st s'
     | Done _ | NoFuel => False
     end.
 Proof.
-  intros Htoks Htrace Hskip Htr Hren Hdepth Hrel.
-  destruct (model_print s toks Htoks mitems ts rest i Htrace Hskip Hren Hdepth) as (f0 & Hm).
+  intros Htoks Htrace Hskip Htr Hren Hd Hdepth Hrel.
+  destruct (model_print s toks Htoks mitems ts rest i Htrace Hskip Hren d Hd Hdepth) as (f0 & Hm).
   exists f0. intros fuel Hf r o.
   destruct (Hm fuel Hf r o) as (i' & r' & o' & HW & Hrun). clear Hm.
   cbn [exec].
